@@ -294,6 +294,35 @@ func checkPkgMessage(r *ev.Run, m dns.Message, tag string, useXnet bool) {
 	r.Eval(string(wire), "encode-ok")
 }
 
+// namesOf lists every name string of a decoded message (question and owner names).
+func namesOf(m *dns.Message) string {
+	var b strings.Builder
+	for _, q := range m.Question {
+		fmt.Fprintf(&b, "%q,", q.Name)
+	}
+	for _, sec := range [][]dns.RR{m.Answer, m.Authority, m.Additional} {
+		for _, rr := range sec {
+			fmt.Fprintf(&b, "%q", rr.Name)
+			switch d := rr.Data.(type) {
+			case string:
+				fmt.Fprintf(&b, "=%q", d)
+			case dns.HTTPS:
+				fmt.Fprintf(&b, "=%q", d.Target)
+			}
+			b.WriteString(",")
+		}
+	}
+	return b.String()
+}
+
+func typesOf(l []dns.RR) string {
+	var b strings.Builder
+	for _, rr := range l {
+		fmt.Fprintf(&b, "%s/%d,", rr.Name, rr.Type)
+	}
+	return b.String()
+}
+
 func checkRefMessage(r *ev.Run, m *dnsref.Msg, tag string) {
 	for _, compress := range []bool{false, true} {
 		wire := m.Encode(compress)
@@ -321,7 +350,29 @@ func checkRefMessage(r *ev.Run, m *dnsref.Msg, tag string) {
 			if g.Canon() != m.Canon() {
 				r.Violation(fmt.Sprintf("decode-differs:%s:compressed=%v", tag, compress), fmt.Sprintf("DecodeMessage disagrees with the independent codec:\n got  %s\n want %s", g.Canon(), m.Canon()), replay)
 			}
-			r.Eval(string(wire), fmt.Sprintf("decode-ok-compressed=%v", compress))
+			// what was decoded stays what it was: (1) names are strings - they do not change when the caller reuses the buffer the
+			// message was decoded from; (2) a caller that APPENDS a record to one section (writing no element it can see) does not
+			// change another section
+			names1 := namesOf(got)
+			evalKey := string(wire)
+			for i := range wire {
+				wire[i] = 0xaa
+			}
+			if names2 := namesOf(got); names2 != names1 {
+				r.Violation("decoded-names-follow-the-input-buffer:"+tag, fmt.Sprintf("after the buffer the message was decoded from was overwritten, the decoded names read %q (before: %q)", names2, names1), replay)
+			}
+			secs := func() string {
+				return fmt.Sprintf("%d/%v|%d/%v|%d/%v|%d/%v", len(got.Question), got.Question, len(got.Answer), typesOf(got.Answer), len(got.Authority), typesOf(got.Authority), len(got.Additional), typesOf(got.Additional))
+			}
+			before := secs()
+			_ = append(got.Question, dns.Question{Name: "appended.example", Type: 1, Class: 1})
+			_ = append(got.Answer, dns.RR{Name: "appended.example", Type: 999})
+			_ = append(got.Authority, dns.RR{Name: "appended.example", Type: 998})
+			_ = append(got.Additional, dns.RR{Name: "appended.example", Type: 997})
+			if after := secs(); after != before {
+				r.Violation("decoded-sections-share-memory:"+tag, fmt.Sprintf("after a record was appended to each section of a decoded message (no element of them was written), the sections read %s (before: %s)", after, before), replay)
+			}
+			r.Eval(evalKey, fmt.Sprintf("decode-ok-compressed=%v", compress))
 		}()
 	}
 }
@@ -730,7 +781,17 @@ func Run(r *ev.Run) {
 		for i := range dots127 {
 			dots127[i] = "."
 		}
-		for _, ls := range [][]string{dots127, {strings.Repeat(".", 63), strings.Repeat("\\", 63), strings.Repeat(".", 63), strings.Repeat("a.", 30)}, {"a.b", "example"}, {"a.", "example", "com"}, {".", "x"}, {"\\", "x"}, {"a\\.b"}, {strings.Repeat("\\", 63)}, {strings.Repeat(".", 63), "y"}, {"www", "com."}, {"w\\"}, {"plain", "name"}} {
+		labelSets := [][]string{dots127, {strings.Repeat(".", 63), strings.Repeat("\\", 63), strings.Repeat(".", 63), strings.Repeat("a.", 30)}, {"a.b", "example"}, {"a.", "example", "com"}, {".", "x"}, {"\\", "x"}, {"a\\.b"}, {strings.Repeat("\\", 63)}, {strings.Repeat(".", 63), "y"}, {"www", "com."}, {"w\\"}, {"plain", "name"}}
+		// any octet may occur in a label: a dot or a backslash NEXT TO octets that are not ASCII - valid UTF-8, a lone Latin-1
+		// octet, octets that are no UTF-8 at all, NUL (an escaper that walks runes instead of octets rewrites those)
+		for _, x := range []string{"a", "\xe9", "\xc3\xa9", "\xff\xfe", "\x00"} {
+			for _, y := range []string{"a", "\xe9", "\xc3\xa9", "\xff\xfe", "\x00"} {
+				for _, sep := range []string{".", "\\", ""} {
+					labelSets = append(labelSets, []string{x + sep + y, "example"})
+				}
+			}
+		}
+		for _, ls := range labelSets {
 			for _, rd := range [][]string{{"t.t", "example"}, {"target", "example"}} {
 				wire := []byte{0, 7, 0x81, 0x80, 0, 1, 0, 2, 0, 0, 0, 0}
 				wire = append(append(wire, wireName(ls)...), 0, 65, 0, 1)
